@@ -114,6 +114,13 @@ def checkWith {σ : Type} (sc : Driver.Script) (m0 : σ) (mstep : σ → Driver.
     else
       if ln.kind == '?' then
         match ln.toks with
+        | "write" :: "err" :: _ | "read" :: "err" :: _ =>
+          -- the transport failed: the monitor is told (it cannot see it otherwise before a callback reports it)
+          match s with
+          | some st => match step st .transportErr with
+            | .ok st' => s := some st'
+            | .error _ => pure ()
+          | none => pure ()
         | "write" :: r =>
           if (Driver.attr? r "n") != (Driver.attr? r "of") then res := { res with tags := Driver.addTag res.tags "partial-write" }
         | _ => pure ()
